@@ -66,7 +66,25 @@ struct Gen {
   Op& add(const char* k) { p.ops.emplace_back(); p.ops.back().kind = k; return p.ops.back(); }
   int64_t slot() { return (int64_t)r.below(NSLOT); }
 
+  // short scripted scenarios on ONE node (same slot and path): multi-step interactions that independent random ops
+  // line up only rarely
+  void scenario() {
+    int64_t sl = slot(); std::string pth = path();
+    auto op1 = [&](const char* k) -> Op& { Op& o = add(k); o.a.push_back(sl); o.s.push_back(pth); return o; };
+    auto addm = [&](int n) { for (int i = 0; i < n; i++) { Op& o = op1("AddMember"); o.a.push_back((int64_t)r.below(2)); o.s.push_back(model::gen_key(r, go)); o.s.push_back(scalar()); } };
+    switch (r.below(8)) {
+      case 0: { op1("SetObject"); addm((int)r.range(2, 6)); op1("CreateMap"); Op& e = op1("EraseMember"); e.a = {sl, (int64_t)r.range(1, 5), 7, 0}; addm((int)r.range(1, 3)); op1("Lookup"); Op& rm = op1("RemoveMember"); rm.s.push_back(model::gen_key(r, go)); op1("Lookup"); break; }
+      case 1: { op1("SetObject"); addm((int)r.range(1, 5)); op1("CreateMap"); Op& rm = op1("RemoveMember"); rm.s.push_back(model::gen_key(r, go)); addm(1); op1("Lookup"); break; }
+      case 2: { op1("SetArray"); Op& rs = op1("Reserve"); rs.a.push_back(1); for (int i = 0; i < 3; i++) { Op& pb = op1("PushBack"); pb.s.push_back(scalar()); } break; }
+      case 3: { op1("SetObject"); op1("CreateMap"); Op& mr = op1("MemberReserve"); mr.a.push_back((int64_t)r.range(17, 40)); addm((int)r.range(1, 4)); op1("Lookup"); break; }
+      case 4: { op1("SetObject"); Op& mr = op1("MemberReserve"); mr.a.push_back((int64_t)r.range(1, 4)); addm(1); op1("CreateMap"); Op& an = op1("AddMemberN"); an.a.push_back((int64_t)r.range(16, 40)); an.a.push_back((int64_t)r.below(2)); op1("Lookup"); break; }
+      case 5: { op1("SetObject"); addm((int)r.range(1, 4)); op1("CreateMap"); op1("Clear"); addm((int)r.range(1, 4)); op1("Lookup"); op1("CreateMap"); op1("Lookup"); break; }
+      case 6: { op1("SetObject"); addm((int)r.range(2, 5)); op1("CreateMap"); for (int i = 0; i < 3; i++) { Op& rm = op1("RemoveMember"); rm.s.push_back(model::gen_key(r, go)); } op1("Lookup"); Op& mr = op1("MemberReserve"); mr.a.push_back((int64_t)r.range(20, 40)); addm(2); op1("Lookup"); break; }
+      default: { op1("SetArray"); Op& pn = op1("PushBackN"); pn.a.push_back((int64_t)r.range(1, 20)); pn.a.push_back(0); Op& er = op1("Erase"); er.a = {sl, (int64_t)r.below(8), (int64_t)r.below(8), (int64_t)r.below(2)}; Op& pb = op1("PushBack"); pb.s.push_back(val(1)); op1("PopBack"); break; }
+    }
+  }
   void mutation_op() {
+    if (r.chance(1, 14)) { scenario(); return; }
     static const char* kinds[] = {"AddMember", "AddMember", "AddMember", "AddMember", "AddMember", "AddMember", "RemoveMember", "RemoveMember", "RemoveMember", "RemoveMember",
                                   "EraseMember", "MemberReserve", "PushBack", "PushBack", "PushBack", "PushBack", "PopBack", "PopBack", "Erase", "Erase", "Reserve", "Clear",
                                   "Assign", "Assign", "SetNull", "SetBool", "SetInt", "SetUint", "SetDouble", "SetStr", "SetStr", "SetArray", "SetObject",
